@@ -266,11 +266,11 @@ DSRun(f, sty, chars, ds) == IF DSDone(ds) THEN ds ELSE DSRun(f, sty, chars, DSSt
 DrawStringT(f, sty, chars, pos, base, pic) ==
   LET ds == DSRun(f, sty, chars, DSInit(f, pos, base, pic)) IN [pic |-> ds.pic, ret |-> DSReturn(f, base, ds)]
 
-(* TRANSCRIBED: measure_string (mono_text_style.rs:263-282) *)
+(* TRANSCRIBED: measure_string (mono_text_style.rs:263-286, as of c499d29) *)
 MeasureStringT(f, sty, n, pos, base) ==
   LET w == SatSubU(n * (f.cw + f.s), f.s)                                   \* :266-268
-      h == IF sty.ulm # 0 THEN f.ul[2] + f.ul[1] ELSE f.ch                  \* :270-274
+      h == IF sty.ulm # 0 THEN Max(f.ul[2] + f.ul[1], f.ch) ELSE f.ch       \* :272-277
   IN [box |-> <<pos[1], pos[2] - BaselineOffT(f, base), w, h>>, next |-> <<pos[1] + w, pos[2]>>]
-\* line_height() (:284-286)
+\* line_height() (:288-290)
 FontLineHeightT(f) == f.ch
 =============================================================================
